@@ -268,6 +268,7 @@ def run(ctx):
                     else:
                         ctx.ob(name, None, "model reports '%s' but the compiled crate does not (%s)" % (bad[1], real))
     every_terminator(ctx, q, mf, ms, registry, fields, nid, pre, rp)
+    every_method_no_panic(ctx, q, mf, ms, registry, fields, nid, pre, rp)
     rp.close()
     ctx.validated = rp.count
     ctx.extra["states"] = nstates
@@ -275,6 +276,46 @@ def run(ctx):
     ctx.extra["cvc5"] = q.summary()
     ctx.extra["explanation"] = ("Every (shape, valid selection, call) triple is executed symbolically from the Builder's MIR with the id counter symbolic; "
                                 "post-conditions and invariant checked per path; counter arithmetic by z3.")
+
+
+def every_method_no_panic(ctx, q, mf, ms, registry, fields, nid, pre, rp):
+    """'Never panics' for EVERY Builder method (the step check above covers the listed structural calls in all states): each
+    method is executed from MIR with the SECOND block of the only function selected — function index and block index differ, so
+    an index confusion cannot hide — and no panic edge may be feasible."""
+    import bsweep
+    methods = bsweep.builder_methods(mf)
+    skip = {"verif_from_parts", "verif_next_id", "module", "module_ref", "module_mut", "new_from_module", "new", "find_return_block_indices", "select_function_by_name"}
+    n = 0
+    for name, file, line in methods:
+        if name in skip or name.startswith("verif_"):
+            continue
+        fn = mf.parse_item(line)
+        eng = sym.Engine([mf, ms], registry, models=MODELS + bsweep.EXTRA_MODELS, eager=True, loop_bound=4)
+        try:
+            combos = bsweep.signature_args(eng, fn, max_combos=1)
+        except mir.Unsupported:
+            continue
+        for args in combos[:1]:
+            b0 = make_state((1, 2, 0, 1), 0, 1, nid, fields)
+            try:
+                res = eng.run(fn, [sym.Ref(("h", "b"), (), True)] + list(args), mem={("h", "b"): b0}, pc=list(pre))
+            except mir.Unsupported:
+                continue        # the per-method legs of C06 / C13 report methods that cannot be encoded
+            n += 1
+            for r in res:
+                if r.status != "panic":
+                    continue
+                st, m = q.check(list(r.pc), "method-panic")
+                if st != "sat":
+                    continue
+                real = rp.ask("builder_call %s 3" % name)
+                if "panic" in real:
+                    ctx.ob("builder/no-panic/%s" % name, False, str(r.info))
+                    ctx.violation("builder/%s/panics" % name, "Builder::%s with the second block of the function selected panics: %s (%s)" % (name, real["panic"], real.get("at")),
+                                  {"cmd": "builder_call %s 3" % name, "real": real})
+                    return
+                ctx.extra.setdefault("model_only_panic_edges", []).append("%s: %s" % (name, r.info))
+    ctx.ob("builder/no-panic/every-method-with-the-second-block-selected", True, "%d methods" % n)
 
 
 def every_terminator(ctx, q, mf, ms, registry, fields, nid, pre, rp):
